@@ -136,6 +136,27 @@ def do_run(prop, tier, seed):
     return 1 if nviol else 0
 
 
+def _budget_watchdog(seconds):
+    """A run that exceeds its wall-clock budget (a generated case or a shard that never returns) ends as INCONCLUSIVE
+    with exit 2 - a time budget is never a verdict - instead of hanging for ever."""
+    import threading
+
+    def expire():
+        import multiprocessing
+        print('HARNESS-ERROR: INCONCLUSIVE - wall-clock budget of %d s exceeded (a case or shard did not return); no verdict'
+              % seconds)
+        sys.stdout.flush()
+        for c in multiprocessing.active_children():
+            try:
+                c.kill()
+            except Exception:
+                pass
+        os._exit(2)
+    t = threading.Timer(seconds, expire)
+    t.daemon = True
+    t.start()
+
+
 def main(argv=None):
     ap = argparse.ArgumentParser()
     ap.add_argument('prop')
@@ -146,6 +167,7 @@ def main(argv=None):
     a = ap.parse_args(argv)
     prop = a.prop.upper()
     seed = a.seed if a.seed is not None else int(os.environ.get('VERIF_SEED', '1') or 1)
+    _budget_watchdog(int(os.environ.get('VERIF_BUDGET_S', '0') or 0) or (4 * 3600 if a.tier == 'thorough' else 2700))
     try:
         _check_tree()
         if a.replay:
